@@ -1,4 +1,4 @@
-(*IMPORTS: Proofs.MatrixRefine Legacy.C03Refuted*)
+(*IMPORTS: Model.MatNorms Proofs.MatrixRefine Proofs.MatNorms Proofs.MatNormsR Legacy.C03Refuted*)
 (* ---------- histories: the flat model refines the list-of-rows specification (Proofs/MatrixRefine.v) ----------
    [smat] = list of rows + declared column count; [sstep] gives every editing operation by its textbook entry
    formula over rows and its documented range/shape condition; [absM] reads the rows out of the flat buffer.
@@ -63,6 +63,41 @@ Proof.
   - vm_compute. reflexivity.
 Qed.
 
+(* ---------- norms (functions.rs) = their textbook definitions ----------
+   over any arithmetic whose comparison satisfies the two order laws [OrdLaws] (irreflexive; a < b and c <= a
+   give c <= b): "N bounds every member and is 0 or a member" = N is the maximum of 0 and the family.
+   [colsum m j] = Sum_i |a_ij|, [rowsum m i] = Sum_j |a_ij| (the code's own left folds).  norm_p: the two libm
+   calls are parameters; the sum runs over the buffer in row-major order. *)
+Theorem norms_spec : forall (S : SArith), OrdLaws (SA S) -> forall m : matrix (SA S), wf m ->
+  (exists R, mnorm_1 m = Ok R /\ (forall j, j < cols m -> ltb R (colsum m j) = false) /\
+             (R = zero \/ exists j, j < cols m /\ R = colsum m j)) /\
+  (exists R, mnorm_inf m = Ok R /\ (forall i, i < rows m -> ltb R (rowsum m i) = false) /\
+             (R = zero \/ exists i, i < rows m /\ R = rowsum m i)) /\
+  (exists R, mnorm_max m = Ok R /\
+             (forall i j, i < rows m -> j < cols m -> ltb R (abs (entry m i j)) = false) /\
+             (R = zero \/ exists i j, i < rows m /\ j < cols m /\ R = abs (entry m i j))) /\
+  (forall pw root : SA S -> SA S,
+     mnorm_p pw root m = Ok (root (sum_n (length (buf m)) (fun k => pw (abs (nth k (buf m) zero)))))) /\
+  mnorm_frob m =
+    Ok (sqrt (sum_n (length (buf m)) (fun k => mul (abs (nth k (buf m) zero)) (abs (nth k (buf m) zero))))).
+Proof. exact (@norms_spec_lemma). Qed.
+Check norms_spec : forall (S : SArith), OrdLaws (SA S) -> forall m : matrix (SA S), wf m ->
+  (exists R, mnorm_1 m = Ok R /\ (forall j, j < cols m -> ltb R (colsum m j) = false) /\
+             (R = zero \/ exists j, j < cols m /\ R = colsum m j)) /\
+  (exists R, mnorm_inf m = Ok R /\ (forall i, i < rows m -> ltb R (rowsum m i) = false) /\
+             (R = zero \/ exists i, i < rows m /\ R = rowsum m i)) /\
+  (exists R, mnorm_max m = Ok R /\
+             (forall i j, i < rows m -> j < cols m -> ltb R (abs (entry m i j)) = false) /\
+             (R = zero \/ exists i j, i < rows m /\ j < cols m /\ R = abs (entry m i j))) /\
+  (forall pw root : SA S -> SA S,
+     mnorm_p pw root m = Ok (root (sum_n (length (buf m)) (fun k => pw (abs (nth k (buf m) zero)))))) /\
+  mnorm_frob m =
+    Ok (sqrt (sum_n (length (buf m)) (fun k => mul (abs (nth k (buf m) zero)) (abs (nth k (buf m) zero))))).
+Print Assumptions norms_spec.
+Example norms_spec_nonvacuous :
+  OrdLaws (SA SAR) /\ wf (mkM (A:=AR) [1%R; (-2)%R; 3%R; 4%R; 0%R; (-5)%R] 2 3).
+Proof. split; [exact AR_OrdLaws|reflexivity]. Qed.
+
 (* ---------- the pre-repair variants are refuted (Legacy/C03Refuted.v) ---------- *)
 Theorem mat_mul_legacy_refuted :
   exists a b : matrix AQ, wf a /\ wf b /\ cols a = rows b /\
@@ -87,3 +122,36 @@ Check set_col_legacy_writes_neighbour :
     exists m1, for_ 0 1 (fun i s => let* x := rd v i in mset s i 2 x) m = Ok m1 /\
                Qc_eqb (entry m1 1 0) (nth 0 v zero) = true /\ Qc_eqb (entry m1 1 0) (entry m 1 0) = false.
 Print Assumptions set_col_legacy_writes_neighbour.
+
+(* (kept last: its Print Assumptions block lists axioms, and the driver reads the block up to the next one) *)
+(* over the real numbers (the instance [AR]/[SAR] of Proofs/MatNormsR.v: Rabs, sqrt, Rpower, decidable order) *)
+Theorem norms_real : forall m : matrix AR, wf m ->
+  (exists N, mnorm_1 (S:=SAR) m = Ok N /\
+             (forall j, j < cols m -> (colsum (SS:=SAR) m j <= N)%R) /\
+             (N = 0%R \/ exists j, j < cols m /\ N = colsum (SS:=SAR) m j)) /\
+  (exists N, mnorm_inf (S:=SAR) m = Ok N /\
+             (forall i, i < rows m -> (rowsum (SS:=SAR) m i <= N)%R) /\
+             (N = 0%R \/ exists i, i < rows m /\ N = rowsum (SS:=SAR) m i)) /\
+  (exists N, mnorm_max (S:=SAR) m = Ok N /\
+             (forall i j, i < rows m -> j < cols m -> (Rabs (entry m i j) <= N)%R) /\
+             (N = 0%R \/ exists i j, i < rows m /\ j < cols m /\ N = Rabs (entry m i j))) /\
+  (forall p : R, mnorm_p (S:=SAR) (fun x => Rpower x p) (fun s => Rpower s (1 / p)) m =
+     Ok (Rpower (sum_n (A:=AR) (length (buf m)) (fun k => Rpower (Rabs (nth k (buf m) 0%R)) p)) (1 / p))) /\
+  mnorm_frob (S:=SAR) m =
+    Ok (R_sqrt.sqrt (sum_n (A:=AR) (length (buf m)) (fun k => (nth k (buf m) 0 * nth k (buf m) 0)%R))).
+Proof. exact norms_real_lemma. Qed.
+Check norms_real : forall m : matrix AR, wf m ->
+  (exists N, mnorm_1 (S:=SAR) m = Ok N /\
+             (forall j, j < cols m -> (colsum (SS:=SAR) m j <= N)%R) /\
+             (N = 0%R \/ exists j, j < cols m /\ N = colsum (SS:=SAR) m j)) /\
+  (exists N, mnorm_inf (S:=SAR) m = Ok N /\
+             (forall i, i < rows m -> (rowsum (SS:=SAR) m i <= N)%R) /\
+             (N = 0%R \/ exists i, i < rows m /\ N = rowsum (SS:=SAR) m i)) /\
+  (exists N, mnorm_max (S:=SAR) m = Ok N /\
+             (forall i j, i < rows m -> j < cols m -> (Rabs (entry m i j) <= N)%R) /\
+             (N = 0%R \/ exists i j, i < rows m /\ j < cols m /\ N = Rabs (entry m i j))) /\
+  (forall p : R, mnorm_p (S:=SAR) (fun x => Rpower x p) (fun s => Rpower s (1 / p)) m =
+     Ok (Rpower (sum_n (A:=AR) (length (buf m)) (fun k => Rpower (Rabs (nth k (buf m) 0%R)) p)) (1 / p))) /\
+  mnorm_frob (S:=SAR) m =
+    Ok (R_sqrt.sqrt (sum_n (A:=AR) (length (buf m)) (fun k => (nth k (buf m) 0 * nth k (buf m) 0)%R))).
+Print Assumptions norms_real.
